@@ -342,7 +342,10 @@ impl MemorySideCache {
 
 impl Aml for MemorySideCache {
     fn to_aml_bytes(&self, sink: &mut dyn AmlSink) {
-        assert!(self.smbios_handles.len() <= u16::MAX as usize, "too many SMBIOS handles");
+        assert!(
+            self.smbios_handles.len() <= u16::MAX as usize,
+            "too many SMBIOS handles"
+        );
         sink.word(HmatStructureType::MemorySideCache as u16);
         sink.word(0); // reserved
         sink.dword(self.len() as u32);
